@@ -78,13 +78,13 @@ def case_of(text, chrom_order, root, flip, by_chrom=True):
     return {"gfa": text, "chromosome_order": chrom_order, "root": root, "flip": flip, "by_chrom": by_chrom}
 
 
-def judge_run(res, scratch, text, chains, chrom_order, root, flip, what, base_map=None, base_text=None):
+def judge_run(res, scratch, text, chains, chrom_order, root, flip, what, base_map=None, base_text=None, by_chrom=False):
     """run order_gfa, judge every requested chromosome, return the (node -> BO,NO) map or None"""
-    run = oc.run_order(scratch, text, chrom_order, by_chrom=False, root=root, flip=flip)
+    run = oc.run_order(scratch, text, chrom_order, by_chrom=by_chrom, root=root, flip=flip)
     res.evaluations += 1
     import os
 
-    case = case_of(text, chrom_order, root, flip, False)
+    case = case_of(text, chrom_order, root, flip, by_chrom)
     case["hashseed"] = int(os.environ.get("PYTHONHASHSEED", "0"))
     if base_map is not None:
         case["base_gfa"] = base_text if base_text is not None else text
@@ -96,11 +96,21 @@ def judge_run(res, scratch, text, chains, chrom_order, root, flip, what, base_ma
     if run.outcome.kind != "ok":
         res.fail(f"{pre}order_gfa-failed:{run.outcome.sig()}", f"{what}: {run.outcome.brief()}", case)
         return None
-    out = run.gfa("complete")
-    if out is None:
-        res.fail(f"{pre}no-output", f"{what}: no complete GFA written ({run.files})", case)
-        return None
-    tags = oc.bo_no_map(out)
+    if by_chrom:
+        # one file per chromosome: the tags of all of them together
+        tags = {}
+        for c in requested:
+            t = run.gfa(c.chrom)
+            if t is None:
+                res.fail(f"{pre}no-output", f"{what}: no GFA written for {c.chrom} ({run.files})", case)
+                return None
+            tags.update(oc.bo_no_map(t))
+    else:
+        out = run.gfa("complete")
+        if out is None:
+            res.fail(f"{pre}no-output", f"{what}: no complete GFA written ({run.files})", case)
+            return None
+        tags = oc.bo_no_map(out)
     ranges = {}
     for c in chains:
         if c.chrom not in chrom_order.split(","):
@@ -155,7 +165,7 @@ def single_chain(res, scratch, spec, decl):
 def multi_chrom(res, scratch, tier):
     firsts = [["snp"], ["insertion", "link"], ["nested"], []]
     second = gen.Chain(["deletion"], chrom="chr2", id_base=40, hap="hB#1#c", decl="rev")
-    third = gen.Chain(["triallelic"], chrom="chrX", id_base=70, hap="hC#1#c", decl="alt", ends=("open", "tip"))
+    third = gen.Chain(["triallelic"], chrom="hg38:chrX", id_base=70, hap="hC#1#c", decl="alt", ends=("open", "tip"))
     class OneNode:
         """a chromosome that is a single segment (e.g. chrM): one chain element, a scaffold node"""
 
@@ -179,6 +189,9 @@ def multi_chrom(res, scratch, tier):
                         judge_run(res, scratch, g.text(), chains, req, root, flip, f"[{'+'.join('-'.join(c.blocks) or 'no-block' for c in chains)}] --chromosome_order {req}")
                         res.nt(fw.h64(["multi", bl, req, root, flip]))
                         res.count("multi_chromosome_runs")
+                    # the same request with --by-chrom: the per-chromosome files together carry the same disjoint ranges
+                    judge_run(res, scratch, g.text(), chains, req, None, False, f"[{'+'.join('-'.join(c.blocks) or 'no-block' for c in chains)}] --by-chrom --chromosome_order {req}", by_chrom=True)
+                    res.count("multi_chromosome_runs_by_chrom")
             # S and L lines of the chromosomes interleaved
             lines = g.lines()
             t = "".join(lines[i] + "\n" for i in list(range(len(lines)))[::-1])
@@ -297,5 +310,5 @@ def replay(case, scratch):
     if case.get("base_gfa"):
         tmp = fw.ShardResult()
         base = judge_run(tmp, scratch, case["base_gfa"], chains, case["chromosome_order"], 0, False, "replay base run")
-    judge_run(res, scratch, case["gfa"], chains, case["chromosome_order"], case["root"], case["flip"], "replay", base, case.get("base_gfa"))
+    judge_run(res, scratch, case["gfa"], chains, case["chromosome_order"], case["root"], case["flip"], "replay", base, case.get("base_gfa"), by_chrom=bool(case.get("by_chrom")))
     return res.failures
